@@ -400,6 +400,8 @@ def uniq(ctx):
 
     atoms = [('%s not in _M.identifying_attributes' % nm, lambda e, s, tr: not s['identifying']),
              ('%s in _M.identifying_attributes' % nm, lambda e, s, tr: s['identifying']),
+             ('%s in _M.referential_attributes' % nm, lambda e, s, tr: s['referential']),
+             ('%s not in _M.referential_attributes' % nm, lambda e, s, tr: not s['referential']),
              ('_X is None', lambda e, s, tr: (v_of(e, s) == 'none') if v_of(e, s) else None),
              ('_X is not None', lambda e, s, tr: (v_of(e, s) != 'none') if v_of(e, s) else None),
              ('_X != 0', lambda e, s, tr: (v_of(e, s) != 'zero') if v_of(e, s) else None),
@@ -410,18 +412,20 @@ def uniq(ctx):
              ('_X', lambda e, s, tr: (v_of(e, s) == 'nonzero') if v_of(e, s) else None)]
     effects = [('_N = _V', val_assign), ('_N = _V', ty_norm), ('_C += 1', inc)]
     it = absint.Interp(fn, atoms, effects)
-    for identifying, value, tyname in itertools.product([True, False], ['none', 'zero', 'nonzero'],
-                                                        ['UNIQUE_ID', 'unique_id', 'Unique_Id', 'INTEGER', 'STRING']):
-        state = {'identifying': identifying, 'value': value, 'ty': tyname}
+    for identifying, value, tyname, referential in itertools.product([True, False], ['none', 'zero', 'nonzero'],
+                                                                     ['UNIQUE_ID', 'unique_id', 'Unique_Id', 'INTEGER', 'STRING'], [False, True]):
+        # (an identifying attribute may be referential as well - the identifier of a subtype or of an association class: an instance that is
+        #  not related then has a null identifier, which is exactly what the property wants reported)
+        state = {'identifying': identifying, 'value': value, 'ty': tyname, 'referential': referential}
         try:
             out, tr = it.run(state, body=attr_loop.body)
         except absint._Continue:
             out = None
         want = 1 if identifying and (value == 'none' or (value == 'zero' and tyname.upper() == 'UNIQUE_ID')) else 0
         got = state.get('count', 0)
-        desc = 'null test(identifying=%d, value=%s, type=%s)' % (identifying, value, tyname)
+        desc = 'null test(identifying=%d, value=%s, type=%s%s)' % (identifying, value, tyname, ', referential' if referential else '')
         r.check(got == want, '%s -> %d' % (desc, want), attr_loop, construct=QQ,
-                key='null %s %s %s' % (identifying, value, tyname.upper() == tyname),
+                key='null %s %s %s%s' % (identifying, value, tyname.upper() == tyname, ' referential' if referential else ''),
                 msg='%s must count %d null identifying value(s); the code counts %d -- the type name is compared without '
                     'case normalisation' % (desc, want, got) if tyname.upper() == 'UNIQUE_ID' and value == 'zero'
                 else '%s must count %d; the code counts %d' % (desc, want, got))
